@@ -17,9 +17,9 @@ fi
 git -C $BOX/repo checkout -q --detach "$(git -C /repo rev-parse HEAD)" && git -C $BOX/repo checkout -q -- . && git -C $BOX/repo clean -fdq -e target
 git -C $BOX/repo apply "$PATCH" || { echo "PATCH DOES NOT APPLY"; exit 2; }
 mkdir -p $BOX/sim $BOX/verif/evidence/.parts $BOX/verif/replays
-# simulator sources: the *committed* /verif/sim (so that uncommitted edits in progress do not leak in)
+# simulator sources: the *committed* /verif/sim (SIMREV=<commit> picks an older simulator, to show what a strengthening added) (so that uncommitted edits in progress do not leak in)
 rm -rf $BOX/sim-src; mkdir -p $BOX/sim-src
-git -C /verif archive HEAD sim | tar -x -C $BOX/sim-src
+git -C /verif archive "${SIMREV:-HEAD}" sim | tar -x -C $BOX/sim-src
 rsync -a --delete --exclude target $BOX/sim-src/sim/ $BOX/sim/
 sed -i "s#path = \"/repo\"#path = \"$BOX/repo\"#" $BOX/sim/Cargo.toml
 cp /verif/known_findings.json $BOX/verif/
